@@ -120,7 +120,9 @@ pub fn start_async_rt(router: Router, read_timeout: Duration) -> SocketAddr {
     runtime().block_on(async {
         let al = AsyncServer::listen("127.0.0.1:0").await.unwrap();
         let a = al.local_addr().unwrap();
-        let asrv = AsyncServer::new(router).read_timeout(Some(read_timeout));
+        // a write timeout too (generous: never reached by a reading peer): the server then takes its
+        // timed write path
+        let asrv = AsyncServer::new(router).read_timeout(Some(read_timeout)).write_timeout(Some(Duration::from_secs(5)));
         tokio::spawn(async move { let _ = asrv.serve(al).await; });
         a
     })
